@@ -583,3 +583,393 @@ Proof.
   cbn [sup_sel s_comp s_rel] in *. rewrite andb_true_r in *.
   exact (sup_comp_trans_simple ca cb (s_comp z) Sa H1 H2).
 Qed.
+
+(* ---------- the two directions of the model agree: sub_X a b = sup_X b a ---------- *)
+Lemma lsum_in {A} (f : A -> nat) x l : In x l -> (f x <= lsum f l)%nat.
+Proof. induction l as [|y l IH]; cbn; [contradiction|]. intros [->|H]; [lia|]. specialize (IH H). lia. Qed.
+
+Lemma forallb_ext_in {A} (f g : A -> bool) l : (forall x, In x l -> f x = g x) -> forallb f l = forallb g l.
+Proof. induction l as [|x l IH]; cbn; intros H; [reflexivity|]. rewrite (H x (or_introl eq_refl)), IH; auto. Qed.
+Lemma existsb_ext_in {A} (f g : A -> bool) l : (forall x, In x l -> f x = g x) -> existsb f l = existsb g l.
+Proof. induction l as [|x l IH]; cbn; intros H; [reflexivity|]. rewrite (H x (or_introl eq_refl)), IH; auto. Qed.
+Lemma first_match_ext_in {A R} (test : A -> bool) (f g : A -> R) d l :
+  (forall x, In x l -> f x = g x) -> first_match test f d l = first_match test g d l.
+Proof. induction l as [|x l IH]; cbn; intros H; [reflexivity|]. rewrite (H x (or_introl eq_refl)), IH; auto. Qed.
+
+Lemma text_eqb_sym a b : text_eqb a b = text_eqb b a.
+Proof.
+  destruct (text_eqb a b) eqn:E.
+  - apply text_eqb_eq in E. subst. symmetry. apply text_eqb_refl.
+  - destruct (text_eqb b a) eqn:E2; [|reflexivity]. apply text_eqb_eq in E2. subst. rewrite text_eqb_refl in E. discriminate.
+Qed.
+
+Lemma arg_eqb_sym a b : arg_eqb a b = arg_eqb b a.
+Proof.
+  destruct (arg_eqb a b) eqn:E.
+  - apply (proj2 (proj2 (proj2 eqb_eq_all))) in E. rewrite E.
+    destruct (proj2 (proj2 (proj2 refl_all)) b) as [_ [_ R]]. symmetry. exact R.
+  - destruct (arg_eqb b a) eqn:E2; [|reflexivity]. apply (proj2 (proj2 (proj2 eqb_eq_all))) in E2. rewrite E2 in E.
+    destruct (proj2 (proj2 (proj2 refl_all)) a) as [_ [_ R]]. rewrite R in E. discriminate.
+Qed.
+
+Definition dir_stmt (n : nat) : Prop :=
+  (forall a b, (sel_size a + sel_size b <= n)%nat -> sub_sel a b = sup_sel b a)
+  /\ (forall c d, (comp_size c + comp_size d <= n)%nat -> sub_comp c d = sup_comp d c)
+  /\ (forall p q, (pseudo_size p + pseudo_size q <= n)%nat -> sub_pseudo p q = sup_pseudo q p)
+  /\ (forall x y, (arg_size x + arg_size y <= n)%nat -> sub_arg x y = sup_arg y x).
+
+Lemma sel_size_pos s : (1 <= sel_size s)%nat. Proof. destruct s; cbn; lia. Qed.
+Lemma comp_size_pos s : (1 <= comp_size s)%nat. Proof. destruct s; cbn; lia. Qed.
+Lemma pseudo_size_pos s : (1 <= pseudo_size s)%nat. Proof. destruct s; cbn; lia. Qed.
+Lemma arg_size_pos s : (1 <= arg_size s)%nat. Proof. destruct s; cbn; lia. Qed.
+
+(* the inline walks of sub_sel are the walks of rel_walk *)
+Lemma walk_anc_dir s : forall ss k,
+  (forall x, (sel_size x <= sel_size ss)%nat -> sub_sel x s = sup_sel s x) ->
+  (fix walk (k : relkind) (ss : sel) {struct ss} : bool :=
+     match k with Ancestor | Parent => sub_sel ss s | _ => false end
+     || match ss with Sel (Some (k', ss')) _ => walk k' ss' | Sel None _ => false end) k ss
+  = walk_anc (sup_sel s) k ss.
+Proof.
+  induction ss as [c _|k' ss' c IH _| | | | |] using sel_ind'
+    with (Pc := fun _ => True) (Pp := fun _ => True) (Pa := fun _ => True); auto; intros k H.
+  - cbn [walk_anc]. rewrite (H _ (le_n _)). reflexivity.
+  - cbn [walk_anc]. rewrite (H _ (le_n _)). f_equal. apply IH. intros x Hx. apply H. cbn [sel_size]. lia.
+Qed.
+
+Lemma walk_sib_dir s : forall ss k,
+  (forall x, (sel_size x <= sel_size ss)%nat -> sub_sel x s = sup_sel s x) ->
+  (fix walk (k : relkind) (ss : sel) {struct ss} : bool :=
+     match k with
+     | Sibling | Adjacent =>
+         sub_sel ss s || match ss with Sel (Some (k', ss')) _ => walk k' ss' | Sel None _ => false end
+     | _ => false
+     end) k ss
+  = walk_sib (sup_sel s) k ss.
+Proof.
+  induction ss as [c _|k' ss' c IH _| | | | |] using sel_ind'
+    with (Pc := fun _ => True) (Pp := fun _ => True) (Pa := fun _ => True); auto; intros k H.
+  - cbn [walk_sib]. rewrite (H _ (le_n _)). reflexivity.
+  - cbn [walk_sib]. rewrite (H _ (le_n _)). destruct k; try reflexivity; f_equal; apply IH; intros x Hx; apply H; cbn [sel_size]; lia.
+Qed.
+
+Lemma dir_all n : dir_stmt n.
+Proof.
+  induction n as [|n IH].
+  - repeat split; intros x y H; [pose proof (sel_size_pos x)|pose proof (comp_size_pos x)|pose proof (pseudo_size_pos x)|pose proof (arg_size_pos x)]; lia.
+  - destruct IH as [IHs [IHc [IHp IHa]]]. repeat split.
+    + (* sel *)
+      intros [rel c] [relb cb] H. cbn [sel_size] in H. cbn [sub_sel sup_sel s_comp s_rel].
+      rewrite (IHc c cb) by lia. f_equal. destruct relb as [[kind s]|]; [|reflexivity].
+      destruct rel as [[k ss]|]; [|destruct kind; reflexivity].
+      assert (Hx : forall x, (sel_size x <= sel_size ss)%nat -> sub_sel x s = sup_sel s x).
+      { intros x Hx. apply IHs. lia. }
+      destruct kind; cbn [rel_walk].
+      * apply walk_anc_dir; exact Hx.
+      * destruct k; try reflexivity. apply Hx; lia.
+      * apply walk_sib_dir; exact Hx.
+      * destruct k; try reflexivity. apply Hx; lia.
+    + (* comp *)
+      intros [bc psc] [bd psd] H. cbn [comp_size] in H. cbn [sub_comp sup_comp c_base c_ps].
+      assert (Hpq : forall p q, In p psc -> In q psd -> sub_pseudo p q = sup_pseudo q p).
+      { intros p q Hp Hq. apply IHp. pose proof (lsum_in pseudo_size p psc Hp). pose proof (lsum_in pseudo_size q psd Hq). lia. }
+      f_equal; [f_equal|].
+      * apply forallb_ext_in. intros q Hq. apply existsb_ext_in. intros p Hp. apply Hpq; assumption.
+      * apply first_match_ext_in. intros aa Haa. apply first_match_ext_in. intros ba Hba. apply Hpq; assumption.
+    + (* pseudo *)
+      intros [n1 e1 a1] [n2 e2 a2] H. cbn [pseudo_size] in H.
+      cbn [sub_pseudo sup_pseudo p_name p_arg]. unfold p_is_element. cbn [p_el p_name].
+      rewrite (text_eqb_sym n2 n1).
+      destruct (text_eqb n1 n2) eqn:En.
+      2:{ rewrite !orb_true_r. reflexivity. }
+      apply text_eqb_eq in En. subst n2.
+      destruct (Bool.eqb (e2 || is_pseudo_element_name n1) (e1 || is_pseudo_element_name n1)) eqn:Ee.
+      * cbn [negb orb].
+        destruct (name_in n1 [str "not"]).
+        -- symmetry. apply IHa. lia.
+        -- destruct (name_in n1 [str "current"]); [apply arg_eqb_sym|]. apply IHa. lia.
+      * reflexivity.
+    + (* arg *)
+      intros [la|ta|] [lb|tb|] H; try reflexivity. cbn [arg_size] in H. cbn [sub_arg sup_arg].
+      apply forallb_ext_in. intros x Hx. apply existsb_ext_in. intros y Hy. apply IHs.
+      pose proof (lsum_in sel_size x la Hx). pose proof (lsum_in sel_size y lb Hy). lia.
+Qed.
+
+Lemma sub_is_sup_swapped a b : sub_sel a b = sup_sel b a.
+Proof. apply (proj1 (dir_all (sel_size a + sel_size b))). lia. Qed.
+
+(* ---------- transitivity of is_superselector on all four levels ---------- *)
+Definition is_ap (k : relkind) : bool := match k with Ancestor | Parent => true | _ => false end.
+Definition is_sj (k : relkind) : bool := match k with Sibling | Adjacent => true | _ => false end.
+
+Lemma walk_anc_eq f k ss :
+  walk_anc f k ss = (is_ap k && f ss) || match ss with Sel (Some (k', ss')) _ => walk_anc f k' ss' | Sel None _ => false end.
+Proof. destruct ss as [[[k' ss']|] c]; destruct k; reflexivity. Qed.
+Lemma walk_sib_eq f k ss :
+  walk_sib f k ss = is_sj k && (f ss || match ss with Sel (Some (k', ss')) _ => walk_sib f k' ss' | Sel None _ => false end).
+Proof. destruct ss as [[[k' ss']|] c]; destruct k; reflexivity. Qed.
+
+(* positions of the chain above a selector *)
+Inductive Reach : relkind -> sel -> relkind -> sel -> Prop :=
+| reach_here k s : Reach k s k s
+| reach_up k k' s' c km cm : Reach k' s' km cm -> Reach k (Sel (Some (k', s')) c) km cm.
+(* ... reached through sibling combinators only *)
+Inductive SReach : relkind -> sel -> relkind -> sel -> Prop :=
+| sreach_here k s : is_sj k = true -> SReach k s k s
+| sreach_up k k' s' c km cm : is_sj k = true -> SReach k' s' km cm -> SReach k (Sel (Some (k', s')) c) km cm.
+
+Lemma reach_size k s km cm : Reach k s km cm -> (sel_size cm <= sel_size s)%nat.
+Proof. induction 1; [lia|]. cbn [sel_size]. lia. Qed.
+Lemma sreach_reach k s km cm : SReach k s km cm -> Reach k s km cm.
+Proof. induction 1; [constructor|]. constructor. assumption. Qed.
+
+Lemma anc_elim h : forall ss k, walk_anc h k ss = true ->
+  exists km cm, Reach k ss km cm /\ is_ap km = true /\ h cm = true.
+Proof.
+  induction ss as [c _|k' ss' c IH _| | | | |] using sel_ind'
+    with (Pc := fun _ => True) (Pp := fun _ => True) (Pa := fun _ => True); auto; intros k H;
+    rewrite walk_anc_eq in H; apply orb_true_iff in H as [H|H]; try discriminate.
+  - apply andb_true_iff in H as [H1 H2]. exists k, (Sel None c). repeat split; [constructor|assumption|assumption].
+  - apply andb_true_iff in H as [H1 H2]. exists k, (Sel (Some (k', ss')) c). repeat split; [constructor|assumption|assumption].
+  - destruct (IH k' H) as [km [cm [R [A B]]]]. exists km, cm. repeat split; [constructor; exact R|assumption|assumption].
+Qed.
+
+Lemma anc_intro g k ss km cm : Reach k ss km cm -> is_ap km = true -> g cm = true -> walk_anc g k ss = true.
+Proof.
+  induction 1; intros A B; rewrite walk_anc_eq.
+  - rewrite A, B. reflexivity.
+  - rewrite (IHReach A B). apply orb_true_r.
+Qed.
+
+Lemma anc_suffix g k ss km cm : Reach k ss km cm ->
+  forall k2 c2 cc, cm = Sel (Some (k2, c2)) cc -> walk_anc g k2 c2 = true -> walk_anc g k ss = true.
+Proof.
+  induction 1; intros k2 c2 cc E W; rewrite walk_anc_eq.
+  - subst. rewrite W. apply orb_true_r.
+  - rewrite (IHReach k2 c2 cc E W). apply orb_true_r.
+Qed.
+
+Lemma sib_elim h : forall ss k, walk_sib h k ss = true -> exists km cm, SReach k ss km cm /\ h cm = true.
+Proof.
+  induction ss as [c _|k' ss' c IH _| | | | |] using sel_ind'
+    with (Pc := fun _ => True) (Pp := fun _ => True) (Pa := fun _ => True); auto; intros k H;
+    rewrite walk_sib_eq in H; apply andb_true_iff in H as [Hk H]; apply orb_true_iff in H as [H|H]; try discriminate.
+  - exists k, (Sel None c). split; [constructor; assumption|assumption].
+  - exists k, (Sel (Some (k', ss')) c). split; [constructor; assumption|assumption].
+  - destruct (IH k' H) as [km [cm [R B]]]. exists km, cm. split; [constructor; assumption|assumption].
+Qed.
+
+Lemma sib_intro g k ss km cm : SReach k ss km cm -> g cm = true -> walk_sib g k ss = true.
+Proof.
+  induction 1; intros B; rewrite walk_sib_eq.
+  - rewrite H, B. reflexivity.
+  - rewrite H, (IHSReach B). cbn. apply orb_true_r.
+Qed.
+
+Lemma sib_suffix g k ss km cm : SReach k ss km cm ->
+  forall k2 c2 cc, cm = Sel (Some (k2, c2)) cc -> walk_sib g k2 c2 = true -> walk_sib g k ss = true.
+Proof.
+  induction 1; intros k2 c2 cc E W; rewrite walk_sib_eq.
+  - subst. rewrite H, W. cbn. apply orb_true_r.
+  - rewrite H, (IHSReach k2 c2 cc E W). cbn. apply orb_true_r.
+Qed.
+
+Lemma rel_walk_none kind f : rel_walk kind f None = false.
+Proof. destruct kind; reflexivity. Qed.
+
+Lemma sup_sel_unfold rel c b :
+  sup_sel (Sel rel c) b =
+  sup_comp c (s_comp b) && match rel with None => true | Some (kind, s) => rel_walk kind (sup_sel s) (s_rel b) end.
+Proof. reflexivity. Qed.
+
+(* a walk over the chain of b' can be replayed over the chain of any c' below b' *)
+Definition transfer (f g : sel -> bool) (nb nc : nat) : Prop :=
+  forall x y, (sel_size x < nb)%nat -> (sel_size y < nc)%nat -> f x = true -> sup_sel x y = true -> g y = true.
+
+Lemma transfer_mono f g nb nc nb' nc' : (nb' <= nb)%nat -> (nc' <= nc)%nat -> transfer f g nb nc -> transfer f g nb' nc'.
+Proof. intros H1 H2 T x y Hx Hy. apply T; lia. Qed.
+
+Lemma anc_follow f g : forall b' c',
+  transfer f g (sel_size b') (sel_size c') -> sup_sel b' c' = true ->
+  forall kb sb, s_rel b' = Some (kb, sb) -> walk_anc f kb sb = true ->
+  exists kc sc, s_rel c' = Some (kc, sc) /\ walk_anc g kc sc = true.
+Proof.
+  induction b' as [cb _|kb0 sb0 cb IH _| | | | |] using sel_ind'
+    with (Pc := fun _ => True) (Pp := fun _ => True) (Pa := fun _ => True); auto;
+    intros c' T Hs kb sb Hr Hw; cbn [s_rel] in Hr; [discriminate|]. inversion Hr; subst kb0 sb0; clear Hr.
+  rewrite sup_sel_unfold in Hs. apply andb_true_iff in Hs as [_ Hs].
+  destruct c' as [[[kc sc]|] cc]; cbn [s_rel] in *; [|rewrite rel_walk_none in Hs; discriminate].
+  exists kc, sc. split; [reflexivity|].
+  assert (Tsb : forall cm, (sel_size cm <= sel_size sc)%nat -> transfer f g (sel_size sb) (sel_size cm)).
+  { intros cm Hcm. eapply transfer_mono; [| |exact T]; cbn [sel_size]; lia. }
+  rewrite walk_anc_eq in Hw. apply orb_true_iff in Hw as [Hw|Hw].
+  - (* f sb, kb is an ancestor / parent link *)
+    apply andb_true_iff in Hw as [Hk Hf].
+    destruct kb; try discriminate; cbn [rel_walk] in Hs.
+    + destruct (anc_elim _ _ _ Hs) as [km [cm [R [A B]]]].
+      apply (anc_intro g kc sc km cm R A). apply (T sb cm); try assumption; cbn [sel_size]; [lia|].
+      pose proof (reach_size _ _ _ _ R). lia.
+    + destruct kc; try discriminate. rewrite walk_anc_eq. cbn [is_ap andb].
+      rewrite (T sb sc); [reflexivity| | |assumption|assumption]; cbn [sel_size]; lia.
+  - (* further up the chain of b' *)
+    destruct sb as [[[k1 sb1]|] csb]; [|discriminate].
+    destruct kb; cbn [rel_walk] in Hs.
+    + destruct (anc_elim _ _ _ Hs) as [km [cm [R [A B]]]].
+      destruct (IH cm (Tsb cm (reach_size _ _ _ _ R)) B k1 sb1 eq_refl Hw) as [k2 [c2 [E W]]].
+      destruct cm as [relm ccm]. cbn [s_rel] in E. subst relm. exact (anc_suffix g kc sc km _ R k2 c2 ccm eq_refl W).
+    + destruct kc; try discriminate.
+      destruct (IH sc (Tsb sc (le_n _)) Hs k1 sb1 eq_refl Hw) as [k2 [c2 [E W]]].
+      destruct sc as [relm ccm]. cbn [s_rel] in E. subst relm. rewrite walk_anc_eq, W. apply orb_true_r.
+    + destruct (sib_elim _ _ _ Hs) as [km [cm [R B]]]. apply sreach_reach in R.
+      destruct (IH cm (Tsb cm (reach_size _ _ _ _ R)) B k1 sb1 eq_refl Hw) as [k2 [c2 [E W]]].
+      destruct cm as [relm ccm]. cbn [s_rel] in E. subst relm. exact (anc_suffix g kc sc km _ R k2 c2 ccm eq_refl W).
+    + destruct kc; try discriminate.
+      destruct (IH sc (Tsb sc (le_n _)) Hs k1 sb1 eq_refl Hw) as [k2 [c2 [E W]]].
+      destruct sc as [relm ccm]. cbn [s_rel] in E. subst relm. rewrite walk_anc_eq, W. apply orb_true_r.
+Qed.
+
+Lemma sib_follow f g : forall b' c',
+  transfer f g (sel_size b') (sel_size c') -> sup_sel b' c' = true ->
+  forall kb sb, s_rel b' = Some (kb, sb) -> walk_sib f kb sb = true ->
+  exists kc sc, s_rel c' = Some (kc, sc) /\ walk_sib g kc sc = true.
+Proof.
+  induction b' as [cb _|kb0 sb0 cb IH _| | | | |] using sel_ind'
+    with (Pc := fun _ => True) (Pp := fun _ => True) (Pa := fun _ => True); auto;
+    intros c' T Hs kb sb Hr Hw; cbn [s_rel] in Hr; [discriminate|]. inversion Hr; subst kb0 sb0; clear Hr.
+  rewrite sup_sel_unfold in Hs. apply andb_true_iff in Hs as [_ Hs].
+  destruct c' as [[[kc sc]|] cc]; cbn [s_rel] in *; [|rewrite rel_walk_none in Hs; discriminate].
+  exists kc, sc. split; [reflexivity|].
+  assert (Tsb : forall cm, (sel_size cm <= sel_size sc)%nat -> transfer f g (sel_size sb) (sel_size cm)).
+  { intros cm Hcm. eapply transfer_mono; [| |exact T]; cbn [sel_size]; lia. }
+  rewrite walk_sib_eq in Hw. apply andb_true_iff in Hw as [Hk Hw]. apply orb_true_iff in Hw as [Hw|Hw].
+  - destruct kb; try discriminate; cbn [rel_walk] in Hs.
+    + destruct (sib_elim _ _ _ Hs) as [km [cm [R B]]].
+      apply (sib_intro g kc sc km cm R). apply (T sb cm); try assumption; cbn [sel_size]; [lia|].
+      pose proof (reach_size _ _ _ _ (sreach_reach _ _ _ _ R)). lia.
+    + destruct kc; try discriminate. rewrite walk_sib_eq. cbn [is_sj andb].
+      rewrite (T sb sc); [reflexivity| | |assumption|assumption]; cbn [sel_size]; lia.
+  - destruct sb as [[[k1 sb1]|] csb]; [|discriminate].
+    destruct kb; try discriminate; cbn [rel_walk] in Hs.
+    + destruct (sib_elim _ _ _ Hs) as [km [cm [R B]]].
+      destruct (IH cm (Tsb cm (reach_size _ _ _ _ (sreach_reach _ _ _ _ R))) B k1 sb1 eq_refl Hw) as [k2 [c2 [E W]]].
+      destruct cm as [relm ccm]. cbn [s_rel] in E. subst relm. exact (sib_suffix g kc sc km _ R k2 c2 ccm eq_refl W).
+    + destruct kc; try discriminate.
+      destruct (IH sc (Tsb sc (le_n _)) Hs k1 sb1 eq_refl Hw) as [k2 [c2 [E W]]].
+      destruct sc as [relm ccm]. cbn [s_rel] in E. subst relm. rewrite walk_sib_eq, W. cbn. apply orb_true_r.
+Qed.
+
+(* compound level, given transitivity of the pseudos involved *)
+Lemma sup_comp_trans_gen a b c :
+  (forall p q r, In p (c_ps a) -> In q (c_ps b) -> In r (c_ps c) ->
+                 sup_pseudo p q = true -> sup_pseudo q r = true -> sup_pseudo p r = true) ->
+  sup_comp a b = true -> sup_comp b c = true -> sup_comp a c = true.
+Proof.
+  destruct a as [ba psa], b as [bb psb]. cbn [c_ps sup_comp c_base]. intros Ht H1 H2.
+  apply andb_true_iff in H1 as [H1 F1]. apply andb_true_iff in H1 as [B1 P1].
+  apply andb_true_iff in H2 as [H2 F2]. apply andb_true_iff in H2 as [B2 P2].
+  rewrite (base_sup_trans _ _ _ B1 B2). cbn [andb].
+  assert (E : forallb (fun p => existsb (sup_pseudo p) (c_ps c)) psa = true).
+  { apply forallb_forall. intros p Hp. rewrite forallb_forall in P1, P2.
+    specialize (P1 p Hp). apply existsb_exists in P1 as [q [Hq Hpq]].
+    specialize (P2 q Hq). apply existsb_exists in P2 as [r [Hr Hqr]].
+    apply existsb_exists. exists r. split; [exact Hr|]. exact (Ht p q r Hp Hq Hr Hpq Hqr). }
+  rewrite E. cbn [andb].
+  rewrite first_match_find in F1, F2 |- *.
+  destruct (find p_is_element psa) as [aa|] eqn:Ea.
+  - rewrite first_match_find in F1 |- *. destruct (find p_is_element psb) as [ab|] eqn:Eb; [|discriminate].
+    rewrite first_match_find in F2. destruct (find p_is_element (c_ps c)) as [ac|] eqn:Ec; [|discriminate].
+    apply (Ht aa ab ac); try assumption; [apply (find_some _ _ Ea)|apply (find_some _ _ Eb)|apply (find_some _ _ Ec)].
+  - rewrite first_match_find in F1 |- *. destruct (find p_is_element psb) as [ab|] eqn:Eb; [discriminate|].
+    rewrite first_match_find in F2. exact F2.
+Qed.
+
+Lemma sub_arg_swapped x y : sub_arg x y = sup_arg y x.
+Proof. apply (proj2 (proj2 (proj2 (dir_all (arg_size x + arg_size y))))). lia. Qed.
+
+Lemma arg_eqb_true a b : arg_eqb a b = true -> a = b.
+Proof. apply eqb_eq_all. Qed.
+
+Definition trans_stmt (n : nat) : Prop :=
+  (forall a b c, (sel_size a + sel_size b + sel_size c <= n)%nat ->
+                 sup_sel a b = true -> sup_sel b c = true -> sup_sel a c = true)
+  /\ (forall a b c, (comp_size a + comp_size b + comp_size c <= n)%nat ->
+                    sup_comp a b = true -> sup_comp b c = true -> sup_comp a c = true)
+  /\ (forall a b c, (pseudo_size a + pseudo_size b + pseudo_size c <= n)%nat ->
+                    sup_pseudo a b = true -> sup_pseudo b c = true -> sup_pseudo a c = true)
+  /\ (forall a b c, (arg_size a + arg_size b + arg_size c <= n)%nat ->
+                    sup_arg a b = true -> sup_arg b c = true -> sup_arg a c = true).
+
+Lemma sup_pseudo_shape n e a q : sup_pseudo (Pseudo n e a) q = true ->
+  (e || is_pseudo_element_name n) = p_is_element q /\ n = p_name q
+  /\ (if name_in n [str "not"] then sub_arg a (p_arg q)
+      else if name_in n [str "current"] then arg_eqb a (p_arg q) else sup_arg a (p_arg q)) = true.
+Proof.
+  cbn [sup_pseudo]. intros H.
+  destruct (Bool.eqb (e || is_pseudo_element_name n) (p_is_element q)) eqn:E1; [|cbn in H; discriminate].
+  destruct (text_eqb n (p_name q)) eqn:E2; [|cbn in H; discriminate]. cbn [negb orb] in H.
+  apply eqb_prop in E1. apply text_eqb_eq in E2. repeat split; assumption.
+Qed.
+
+Lemma trans_all n : trans_stmt n.
+Proof.
+  induction n as [|n IH].
+  - repeat split; intros a b c H; [pose proof (sel_size_pos a)|pose proof (comp_size_pos a)|pose proof (pseudo_size_pos a)|pose proof (arg_size_pos a)]; lia.
+  - destruct IH as [IHs [IHc [IHp IHa]]]. repeat split.
+    + (* complex selectors *)
+      intros [rela ca] b c H Hab Hbc. cbn [sel_size] in H.
+      rewrite sup_sel_unfold in Hab |- *. apply andb_true_iff in Hab as [Cab Rab].
+      destruct b as [relb cb]. rewrite sup_sel_unfold in Hbc. pose proof Hbc as Hbc0.
+      apply andb_true_iff in Hbc as [Cbc Rbc]. cbn [s_comp s_rel sel_size] in *.
+      rewrite (IHc ca cb (s_comp c)); [cbn [andb]| |assumption|assumption].
+      2:{ destruct c as [relc cc]; cbn [s_comp sel_size] in *. lia. }
+      destruct rela as [[ka s]|]; [|reflexivity].
+      destruct relb as [[kb sb]|]; [|rewrite rel_walk_none in Rab; discriminate].
+      assert (Hbc1 : sup_sel (Sel (Some (kb, sb)) cb) c = true).
+      { rewrite sup_sel_unfold. rewrite Cbc. exact Rbc. }
+      assert (T : transfer (sup_sel s) (sup_sel s) (sel_size (Sel (Some (kb, sb)) cb)) (sel_size c)).
+      { intros x y Hx Hy Hsx Hxy. apply (IHs s x y); [cbn [sel_size] in Hx; lia|assumption|assumption]. }
+      destruct ka; cbn [rel_walk] in Rab.
+      * destruct (anc_follow _ _ _ c T Hbc1 kb sb eq_refl Rab) as [kc [sc [E W]]]. rewrite E. exact W.
+      * destruct kb; try discriminate. cbn [rel_walk] in Rbc.
+        destruct (s_rel c) as [[kc sc]|] eqn:Ec; [|discriminate]. destruct kc; try discriminate.
+        cbn [rel_walk]. apply (IHs s sb sc); [|assumption|assumption].
+        destruct c as [relc cc]; cbn [s_rel sel_size] in *. subst relc. lia.
+      * destruct (sib_follow _ _ _ c T Hbc1 kb sb eq_refl Rab) as [kc [sc [E W]]]. rewrite E. exact W.
+      * destruct kb; try discriminate. cbn [rel_walk] in Rbc.
+        destruct (s_rel c) as [[kc sc]|] eqn:Ec; [|discriminate]. destruct kc; try discriminate.
+        cbn [rel_walk]. apply (IHs s sb sc); [|assumption|assumption].
+        destruct c as [relc cc]; cbn [s_rel sel_size] in *. subst relc. lia.
+    + (* compound selectors *)
+      intros a b c H. apply sup_comp_trans_gen. intros p q r Hp Hq Hr. apply IHp.
+      destruct a as [ba psa], b as [bb psb], c as [bc psc]. cbn [comp_size c_ps] in *.
+      pose proof (lsum_in pseudo_size p psa Hp). pose proof (lsum_in pseudo_size q psb Hq).
+      pose proof (lsum_in pseudo_size r psc Hr). lia.
+    + (* pseudos *)
+      intros [n1 e1 a1] [n2 e2 a2] [n3 e3 a3] H Hab Hbc. cbn [pseudo_size] in H.
+      apply sup_pseudo_shape in Hab as [E1 [N1 A1]]. apply sup_pseudo_shape in Hbc as [E2 [N2 A2]].
+      cbn [p_name p_arg] in *. unfold p_is_element in *. cbn [p_el p_name] in *. subst n2 n3.
+      cbn [sup_pseudo p_name p_arg]. unfold p_is_element. cbn [p_el p_name].
+      rewrite E1, E2, eqb_reflx, text_eqb_refl. cbn [negb orb].
+      destruct (name_in n1 [str "not"]).
+      * rewrite sub_arg_swapped in A1, A2 |- *. apply (IHa a3 a2 a1); [lia|assumption|assumption].
+      * destruct (name_in n1 [str "current"]).
+        -- apply arg_eqb_true in A1, A2. subst. apply refl_all.
+        -- apply (IHa a1 a2 a3); [lia|assumption|assumption].
+    + (* arguments *)
+      intros [la|ta|] [lb|tb|] [lc|tc|] H Hab Hbc; cbn [sup_arg] in *; try discriminate; try reflexivity.
+      * cbn [arg_size] in H. apply forallb_forall. intros z Hz. rewrite forallb_forall in Hab, Hbc.
+        specialize (Hbc z Hz). apply existsb_exists in Hbc as [y [Hy Hyz]].
+        specialize (Hab y Hy). apply existsb_exists in Hab as [x [Hx Hxy]].
+        apply existsb_exists. exists x. split; [exact Hx|]. apply (IHs x y z); [|assumption|assumption].
+        pose proof (lsum_in sel_size x la Hx). pose proof (lsum_in sel_size y lb Hy). pose proof (lsum_in sel_size z lc Hz). lia.
+      * apply text_eqb_eq in Hab, Hbc. subst. apply text_eqb_refl.
+Qed.
+
+Theorem sup_sel_trans a b c : sup_sel a b = true -> sup_sel b c = true -> sup_sel a c = true.
+Proof. apply (proj1 (trans_all (sel_size a + sel_size b + sel_size c))). lia. Qed.
+
+Theorem sup_sels_trans la lb lc : sup_sels la lb = true -> sup_sels lb lc = true -> sup_sels la lc = true.
+Proof. apply sup_sels_trans_lift. intros x y z _ _ _. apply sup_sel_trans. Qed.
+
+Theorem sup_comp_trans a b c : sup_comp a b = true -> sup_comp b c = true -> sup_comp a c = true.
+Proof. apply (proj1 (proj2 (trans_all (comp_size a + comp_size b + comp_size c)))). lia. Qed.
